@@ -200,8 +200,8 @@ func RuleTransport(r *Report, p *Program, rules aspectSet) {
 						}
 						// Dialer.Deadline field: the dialer composite is an argument of Dial
 						for _, e2 := range pa.Events {
-							if e2.Kind == "call" && isOpenCall(e2.Name) && len(e2.Args) > 0 {
-								if strings.Contains(termDeep(e2.Args[0]), now) {
+							if e2.Kind == "call" && isOpenCall(e2.Name) && len(e2.Deep) > 0 {
+								if strings.Contains(e2.Deep[0], now) {
 									t4 = fmt.Sprintf("dial deadline uses the clock read at %s, before the wait for the fixed-port lock at %s", p.Pos(e.Pos), p.Pos(pa.Events[locks[0]].Pos))
 								}
 							}
@@ -235,9 +235,9 @@ func RuleTransport(r *Report, p *Program, rules aspectSet) {
 				oe := pa.Events[openIdx]
 				local := ""
 				if sf.IsDial {
-					local = termDeepField(oe.Args[0], "LocalAddr")
-				} else if len(oe.Args) > 1 {
-					local = termDeep(oe.Args[1])
+					local = deepField(oe.Deep[0], "LocalAddr")
+				} else if len(oe.Deep) > 1 {
+					local = oe.Deep[1]
 				}
 				if !(strings.Contains(local, "u.bindAddr") || (strings.Contains(local, "net.IPv4(0,0,0,0)") && bindNil(pa))) {
 					t6 = "local address of the socket is " + cut(local, 120) + ", not derived from the configured bind address"
@@ -423,9 +423,37 @@ func termDeepVal(v *Term) string {
 	case "iface":
 		return termDeep(v.Args[0])
 	case "ptr":
-		return termDeep(v)
+		if v.Cell != nil && !v.Cell.Sym {
+			return termDeep(v)
+		}
 	}
 	return v.String()
+}
+
+// deepField extracts "name:value" from a rendered struct "&{a:..,name:value,..}".
+func deepField(s, name string) string {
+	i := strings.Index(s, name+":")
+	if i < 0 {
+		return s
+	}
+	rest := s[i+len(name)+1:]
+	depth := 0
+	for j := 0; j < len(rest); j++ {
+		switch rest[j] {
+		case '(', '[', '{':
+			depth++
+		case ')', ']', '}':
+			if depth == 0 {
+				return rest[:j]
+			}
+			depth--
+		case ',':
+			if depth == 0 {
+				return rest[:j]
+			}
+		}
+	}
+	return rest
 }
 
 func termDeepField(t *Term, field string) string {
